@@ -126,7 +126,7 @@ func (m *MetricStorage) GaugeAdd(metric string, value float64, labels map[string
 // Gauge return saved or register a new gauge.
 func (m *MetricStorage) Gauge(metric string, labels map[string]string) *prometheus.GaugeVec {
 	m.gaugesLock.RLock()
-	vec, ok := m.Gauges[metric]
+	vec, ok := m.Gauges[m.resolveMetricName(metric)]
 	m.gaugesLock.RUnlock()
 	if ok {
 		return vec
@@ -152,7 +152,7 @@ func (m *MetricStorage) RegisterGauge(metric string, labels map[string]string) *
 	m.gaugesLock.Lock()
 	defer m.gaugesLock.Unlock()
 	// double check
-	vec, ok := m.Gauges[metric]
+	vec, ok := m.Gauges[metricName]
 	if ok {
 		return vec
 	}
@@ -166,7 +166,7 @@ func (m *MetricStorage) RegisterGauge(metric string, labels map[string]string) *
 		LabelNames(labels),
 	)
 	m.Registerer.MustRegister(vec)
-	m.Gauges[metric] = vec
+	m.Gauges[metricName] = vec
 	return vec
 }
 
@@ -191,7 +191,7 @@ func (m *MetricStorage) CounterAdd(metric string, value float64, labels map[stri
 // Counter ...
 func (m *MetricStorage) Counter(metric string, labels map[string]string) *prometheus.CounterVec {
 	m.countersLock.RLock()
-	vec, ok := m.Counters[metric]
+	vec, ok := m.Counters[m.resolveMetricName(metric)]
 	m.countersLock.RUnlock()
 	if ok {
 		return vec
@@ -217,7 +217,7 @@ func (m *MetricStorage) RegisterCounter(metric string, labels map[string]string)
 	m.countersLock.Lock()
 	defer m.countersLock.Unlock()
 	// double check
-	vec, ok := m.Counters[metric]
+	vec, ok := m.Counters[metricName]
 	if ok {
 		return vec
 	}
@@ -231,7 +231,7 @@ func (m *MetricStorage) RegisterCounter(metric string, labels map[string]string)
 		LabelNames(labels),
 	)
 	m.Registerer.MustRegister(vec)
-	m.Counters[metric] = vec
+	m.Counters[metricName] = vec
 	return vec
 }
 
@@ -255,7 +255,7 @@ func (m *MetricStorage) HistogramObserve(metric string, value float64, labels ma
 
 func (m *MetricStorage) Histogram(metric string, labels map[string]string, buckets []float64) *prometheus.HistogramVec {
 	m.histogramsLock.RLock()
-	vec, ok := m.Histograms[metric]
+	vec, ok := m.Histograms[m.resolveMetricName(metric)]
 	m.histogramsLock.RUnlock()
 	if ok {
 		return vec
@@ -279,7 +279,7 @@ func (m *MetricStorage) RegisterHistogram(metric string, labels map[string]strin
 	m.histogramsLock.Lock()
 	defer m.histogramsLock.Unlock()
 	// double check
-	vec, ok := m.Histograms[metric]
+	vec, ok := m.Histograms[metricName]
 	if ok {
 		return vec
 	}
@@ -302,7 +302,7 @@ func (m *MetricStorage) RegisterHistogram(metric string, labels map[string]strin
 	}, LabelNames(labels))
 
 	m.Registerer.MustRegister(vec)
-	m.Histograms[metric] = vec
+	m.Histograms[metricName] = vec
 	return vec
 }
 
